@@ -1,0 +1,8 @@
+//go:build !verif
+
+package lib
+
+// VerifPoint is a yield point used by the external verification harness.
+// Without the "verif" build tag it is an empty function that the compiler
+// inlines away.
+func VerifPoint(point string, subject any) {}
